@@ -26,7 +26,7 @@ where
     Init,
     Seek(Inflater<R>),
     Finish(TryBuffered<Inflater<R>>),
-    Done(VirtualPosition),
+    Done,
 }
 
 pin_project! {
@@ -256,16 +256,13 @@ where
 
                     self.stream.replace(stream);
 
-                    Some(SeekState::Done(pos))
+                    // The seek is complete. The next call starts a new one, even to the same
+                    // position: the stream has moved on in the meantime.
+                    self.seek_state = Some(SeekState::Done);
+
+                    return Poll::Ready(Ok(pos));
                 }
-                SeekState::Done(p) => {
-                    if pos == p {
-                        self.seek_state = Some(SeekState::Done(pos));
-                        return Poll::Ready(Ok(pos));
-                    } else {
-                        Some(SeekState::Init)
-                    }
-                }
+                SeekState::Done => Some(SeekState::Init),
             };
         }
     }
